@@ -43,6 +43,9 @@ type Engine struct {
 	M    *Model
 	// Weights of op kinds for Gen (0 = never).
 	W map[string]int
+	// Ghosts are ids that were recently deleted, or created by a transaction that rolled back: references
+	// to them are generated on purpose (stale caches, dangling references).
+	Ghosts map[string][]string
 }
 
 func NewEngine(c *core.Ctx, cfg Config) (*Engine, error) {
@@ -52,7 +55,7 @@ func NewEngine(c *core.Ctx, cfg Config) (*Engine, error) {
 	if err != nil {
 		return nil, err
 	}
-	return &Engine{C: c, Cfg: cfg, Sc: sc, Db: db, Path: path, M: NewModel(cfg), W: DefaultWeights()}, nil
+	return &Engine{C: c, Cfg: cfg, Sc: sc, Db: db, Path: path, M: NewModel(cfg), W: DefaultWeights(), Ghosts: map[string][]string{}}, nil
 }
 
 func (e *Engine) Close() {
@@ -269,6 +272,14 @@ func (e *Engine) RunTx(ops []Op, keyPrefix string) *TxResult {
 	})
 	res.Err = err
 	res.Committed = err == nil
+	for _, op := range planned {
+		if op.Kind == "delete" && op.Exp == ExpOK {
+			e.addGhost(rootOf(op.Store), op.Id)
+		}
+		if op.Kind == "create" && !res.Committed {
+			e.addGhost(rootOf(op.Store), op.Id)
+		}
+	}
 	if res.Committed && !expectFail {
 		e.M = tentative
 	} else if res.Committed && expectFail {
@@ -432,23 +443,15 @@ func (e *Engine) genEmpV(r *core.Rand, m *Model, hostile bool) map[string]any {
 	}
 	v["roles"] = core.Shuffle(r, roles)
 	// dept
-	depts := e.existing(m, Depts)
-	switch {
-	case len(depts) > 0 && !r.P(0.15):
-		v["dept"] = core.Pick(r, depts)
-	case r.P(0.5):
+	if r.P(0.08) {
 		v["dept"] = nil
-	default:
-		v["dept"] = core.Pick(r, DeptIds) // may be missing
+	} else {
+		v["dept"] = e.pickRef(r, m, Depts, DeptIds) // may be missing
 	}
-	emps := e.existing(m, Emps)
-	switch {
-	case r.P(0.45):
+	if r.P(0.45) {
 		v["boss"] = nil
-	case len(emps) > 0 && !r.P(0.1):
-		v["boss"] = core.Pick(r, emps)
-	default:
-		v["boss"] = core.Pick(r, EmpIds)
+	} else {
+		v["boss"] = e.pickRef(r, m, Emps, EmpIds)
 	}
 	if r.P(0.3) {
 		v["grade"] = nil
@@ -696,6 +699,9 @@ func (e *Engine) GenTx(r *core.Rand, maxOps int, hostile bool) []Op {
 		if p.Exp != ExpOK {
 			break
 		}
+		if op.Kind == "delete" {
+			e.addGhost(rootOf(op.Store), op.Id)
+		}
 	}
 	return ops
 }
@@ -716,3 +722,30 @@ func sortedPairs(m map[pair]int) []pair {
 
 // ExistingIds lists the model's ids of a root store, sorted.
 func (e *Engine) ExistingIds(t string) []string { return e.existing(e.M, t) }
+
+func (e *Engine) addGhost(t, id string) {
+	g := e.Ghosts[t]
+	for _, x := range g {
+		if x == id {
+			return
+		}
+	}
+	g = append(g, id)
+	if len(g) > 4 {
+		g = g[len(g)-4:]
+	}
+	e.Ghosts[t] = g
+}
+
+// pickRef picks a reference target: mostly existing, sometimes a ghost (recently removed), sometimes any pool id.
+func (e *Engine) pickRef(r *core.Rand, m *Model, t string, pool []string) string {
+	ex := e.existing(m, t)
+	x := r.Float()
+	if len(ex) > 0 && x < 0.8 {
+		return core.Pick(r, ex)
+	}
+	if g := e.Ghosts[t]; len(g) > 0 && x < 0.93 {
+		return core.Pick(r, g)
+	}
+	return core.Pick(r, pool)
+}
